@@ -52,6 +52,8 @@ func c16ErrClass(err error) int {
 		return 1
 	case strings.Contains(m, "cannot replace to directory"):
 		return 2
+	case strings.Contains(m, "failed to stat"):
+		return 3
 	}
 	return 4
 }
